@@ -21,7 +21,7 @@ ASSUMPTIONS = [
   "simultaneous cues with identical intervals under line_position=True count as non-overlapping",
   "per-character comparison only where the cue text itself is as expected (text faults are C06's clause)",
 ]
-REQUIRED = ["outputs:srt", "outputs:vtt", "cues:compared", "chars:compared", "class:markup-chars", "class:styled-spans", "class:carry-offset", "reader-docs"]
+REQUIRED = ["outputs:srt", "outputs:vtt", "cues:compared", "chars:compared", "class:markup-chars", "class:styled-spans", "class:all-tags-on-one-span", "class:carry-offset", "reader-docs"]
 SHARD_TIMEOUT = {"quick": 900, "thorough": 7200}
 N = {"quick": 24, "thorough": 1000}
 SRC = os.path.join(core.REPO, "src/test/resources")
@@ -69,6 +69,14 @@ def style_spans(rng, adoc, classes):
         k, v = rng.choice(pool)
         el.styles[k] = v
       classes.add("styled-spans")
+    if el.kind == "Span" and rng.random() < 0.08:
+      # every tag at once on one span (nesting order of the closing tags), on an otherwise plain span
+      el.styles["FontWeight"] = E("FontWeightType", "bold")
+      el.styles["FontStyle"] = E("FontStyleType", "italic")
+      el.styles["TextDecoration"] = ("D", "TextDecorationType", (("underline", True), ("line_through", None), ("overline", None)))
+      el.styles["Color"] = ("C", (255, 0, 0, 255))
+      el.styles.pop("Display", None)
+      classes.add("all-tags-on-one-span")
 
 
 def run(ctx, params):
